@@ -919,7 +919,7 @@ impl Model for RingModel {
     fn next_state(&self, st: &St, a: Act) -> Option<St> {
         let case = Case { sys: self.sys, kind: self.kind, cap: self.cap, start: st.start as usize, len: st.len as usize, acts: vec![a] };
         // hand-formatted (this runs once per transition): same JSON as case.to_json()
-        guard::enter(&format!("{{\"sys\":\"{}\",\"kind\":\"{}\",\"cap\":{},\"start\":{},\"len\":{},\"actions\":[\"{}\"]}}", self.sys, self.kind.name(), self.cap, st.start, st.len, a.name()));
+        let _guard_scope = guard::scoped(&format!("{{\"sys\":\"{}\",\"kind\":\"{}\",\"cap\":{},\"start\":{},\"len\":{},\"actions\":[\"{}\"]}}", self.sys, self.kind.name(), self.cap, st.start, st.len, a.name()));
         self.transitions.fetch_add(1, Relaxed);
         match case.run() {
             Ok((s2, l2, fp)) => {
@@ -1028,7 +1028,7 @@ fn main() {
             eprintln!("bad C06 case {v}");
             std::process::exit(2)
         });
-        guard::enter(&v.to_string());
+        let _guard_scope = guard::scoped(&v.to_string());
         ctx.finish_replay(case.run().err().map(|m| format!("{}: {}", m.key, m.msg)));
     }
     let maxcap = ctx.tier.pick(6, 12);
@@ -1043,7 +1043,7 @@ fn main() {
         for start in 0..=cap + 1 {
             for len in 0..=cap + 1 {
                 let case = Case { sys: "ctor", kind: Kind::Vec, cap, start, len, acts: vec![] };
-                guard::enter(&case.to_json().to_string());
+                let _guard_scope = guard::scoped(&case.to_json().to_string());
                 ctx.add_evals(1);
                 if let Err(m) = ctor_case(cap, start, len) {
                     ctx.violation(&m.key, case.to_json(), m.msg, Some(&|| case.run().err().map(|m| m.msg)));
@@ -1113,7 +1113,7 @@ fn main() {
         .par_iter()
         .map(|&(sys, cap, s, l)| {
             let mut count = (0u64, 0u64);
-            guard::enter(&json!({"sys":sys,"kind":"vec","cap":cap,"start":s,"len":l,"actions":[],"note":"unmerged DFS root"}).to_string());
+            let _guard_scope = guard::scoped(&json!({"sys":sys,"kind":"vec","cap":cap,"start":s,"len":l,"actions":[],"note":"unmerged DFS root"}).to_string());
             guard::set_hang_secs(300);
             if sys == "bounded" {
                 let mut alpha = vec![Act::Push, Act::Pop, Act::Iter, Act::Slices, Act::Drain(1), Act::Extend(2)];
@@ -1145,7 +1145,7 @@ fn main() {
     let soak_steps = ctx.tier.pick(20_000, 200_000);
     for sys in ["bounded", "fixed"] {
         for cap in [1usize, 3, 4, 7, 48, 64] {
-            guard::enter(&json!({"sys":sys,"kind":"vec","cap":cap,"note":"soak"}).to_string());
+            let _guard_scope = guard::scoped(&json!({"sys":sys,"kind":"vec","cap":cap,"note":"soak"}).to_string());
             ctx.add_evals(soak_steps as u64);
             ctx.add_transitions(soak_steps as u64);
             if let Some((case, m)) = soak(sys, cap, soak_steps) {
